@@ -1,6 +1,7 @@
 package mp4
 
 import (
+	"fmt"
 	"io"
 
 	"github.com/Eyevinn/mp4ff/bits"
@@ -87,6 +88,10 @@ func DecodeSidxSR(hdr BoxHeader, startPos uint64, sr bits.SliceReader) (Box, err
 	b.AnchorPoint = startPos + b.FirstOffset + hdr.Size
 	sr.SkipBytes(2)
 	refCount := sr.ReadUint16()
+	if int(refCount)*12 > sr.NrRemainingBytes() {
+		return nil, fmt.Errorf("sidx: reference_count %d needs more than the %d bytes available",
+			refCount, sr.NrRemainingBytes())
+	}
 	for i := 0; i < int(refCount); i++ {
 		ref := SidxRef{}
 		work := sr.ReadUint32()
